@@ -335,6 +335,17 @@ def settings(seed, tier):
     simple('CoherenceAnalyzer', 'readonly-fortran', lambda x: na.CoherenceAnalyzer(x, method=dict(this_method='welch', NFFT=32, n_overlap=8)), conv=lambda x: as_kind('readonly')(as_kind('fortran')(x)))
     simple('GrangerAnalyzer', 'float32', lambda x: na.GrangerAnalyzer(x, order=2, n_freqs=16), conv=as_kind('float32'))
     simple('SNRAnalyzer', 'int16', lambda x: na.SNRAnalyzer(x), conv=as_kind('int16'), nch=4, n=64)
+    # ---- L4: odd sizes and method dicts that leave keys out (defaults derived in two places must agree: ceil vs floor)
+    simple('SpectralAnalyzer', 'nfft31', lambda x: na.SpectralAnalyzer(x, method=dict(this_method='welch', NFFT=31)), n=95)
+    simple('SpectralAnalyzer', 'nfft33-only', lambda x: na.SpectralAnalyzer(x, method=dict(NFFT=33)), n=64, one_d=True)
+    simple('CoherenceAnalyzer', 'nfft31', lambda x: na.CoherenceAnalyzer(x, method=dict(this_method='welch', NFFT=31, n_overlap=7)), n=95)
+    simple('CoherenceAnalyzer', 'no-this-method', lambda x: na.CoherenceAnalyzer(x, method=dict(NFFT=32, n_overlap=15)), n=95)
+    simple('SparseCoherenceAnalyzer', 'nfft31', lambda x: na.SparseCoherenceAnalyzer(x, ij=[(0, 1), (1, 2)], method=dict(this_method='welch', NFFT=31)), n=95)
+    seedcoh('nfft31', True, method=dict(this_method='welch', NFFT=31))
+    simple('MTCoherenceAnalyzer', 'odd-length', lambda x: na.MTCoherenceAnalyzer(x), n=63)
+    simple('HilbertAnalyzer', 'odd-length', lambda x: na.HilbertAnalyzer(x), n=63)
+    simple('CorrelationAnalyzer', 'odd-length-2ch', lambda x: na.CorrelationAnalyzer(x), n=31, nch=2)
+    simple('GrangerAnalyzer', 'odd', lambda x: na.GrangerAnalyzer(x, order=3, n_freqs=15), n=127)
     LIGHT.update((c, l) for (c, l, _) in S[n_core:])
     return S
 
